@@ -68,7 +68,10 @@ class FamilyExporter:
     """Exports several roots into ONE node list (so that TLC can compare any
     two of them)."""
 
-    def __init__(self) -> None:
+    def __init__(self, sorted_maps: bool = False) -> None:
+        # sorted_maps: visit mapping entries in the order of their canonical keys,
+        # so that node numbering does not depend on insertion order (C17)
+        self.sorted_maps = sorted_maps
         self.nodes: list[dict] = []
         self.pos: dict[int, int] = {}
         self.keep: list[Any] = []
@@ -138,6 +141,11 @@ class FamilyExporter:
         if isinstance(v, (tuple, list)):
             return {"t": "tup", "e": [self.val(e, where + "[]") for e in v]}
         if isinstance(v, Mapping):
+            if self.sorted_maps:
+                keyed = sorted(((self.val(k, where + ".key"), x) for k, x in v.items()),
+                               key=lambda kx: canon_json(kx[0]))
+                return {"t": "map", "e": [[k, self.val(x, where + "[..]")]
+                                          for k, x in keyed]}
             ents = [[self.val(k, where + ".key"), self.val(x, where + f"[{k!r}]")]
                     for k, x in v.items()]
             ents.sort(key=lambda kv: canon_json(kv[0]))
